@@ -30,9 +30,9 @@ U_SCOPE = {'spec': 'scope.spec'}
 U_SCOPE_DEP = {'spec': 'scope.spec', 'dependency': True}
 U_UPER = {'spec': 'uper.spec'}
 GLUE_ZOO = ['zootypes.asn', 'zoosets.asn', 'zooshapes.asn']
-UPER_NOT = ['impl Reader for UperReader: read_printable_string, read_visible_string (chunks_exact_mut / try_for_each: iterator adapters)',
-            'impl Writer for UperWriter: write_ia5string, write_numeric_string, write_printable_string, write_visible_string (str::chars() loops)',
-            'descriptor/*.rs one-line ReadableType / WritableType impls except the blanket impl and Option<T>', 'generated write_seq / read_seq / choice content (walker.rs): contract ASSUMED at the trait (sequence::Constraint, choice::Constraint)']
+UPER_NOT = [
+            'descriptor/bitstring.rs: impl ReadableType / WritableType for BitString (BitVec is not modelled); every other descriptor impl is under contract', 'generated write_seq / read_seq / choice content / Readable / Writable impls (walker.rs): contract VERIFIED for the zoo of unit glue (contracts/zoo/*.asn, real macro output), ASSUMED at the trait (sequence::Constraint, choice::Constraint, Readable, Writable) for every other schema',
+            'bodies of the six restricted-string methods (write_ia5string, write_numeric_string, write_printable_string, write_visible_string, read_printable_string, read_visible_string): protocol-level contract ASSUMED (`@fn ... trusted`)']
 UPER_TRUSTED = ['R13: Reader / Writer traits instantiated at UperReader<B> / UperWriter (trait impl extracted as inherent impl; `type Error` member dropped; `Self::Error`, `R::Error`, `W::Error` -> Error)',
                 'R21 .map(Some) -> closure; R22 / R24 trusted wrappers for ToOwned::to_owned / PartialEq::ne of the DEFAULT constant; R23 tuple-pattern closure parameter desugared; R3 / R4 wrappers for String::from_utf8 / chars().count()',
                 'assume_specification: Result::and_then (std definition)', 'one exec insertion in write_utf8string: `let verif_bytes = value.as_bytes();` (pure second call, for the ENV-1 axiom)']
@@ -92,13 +92,15 @@ PROPS = {
     'C03': {
         'verus': [U_SCOPE, U_UPER, U_PER_DEP, U_BITS_DEP],
         'glue': GLUE_ZOO,
+        'glue_filter': r'::(read_seq|write_seq|read|write)$|verif_g13_consts_',
         'search_groups': ['seq'],
         'bounded_search': [('seq', 'all SEQUENCE shapes with n <= 4 components x kinds {mandatory, OPTIONAL, DEFAULT} x marker position x all presence patterns through the real Writer/Reader API against an X.691 reference encoding; cross-version pairs with up to 5 components')],
         'assumptions': [
             'unit uper proves that the real write_sequence / read_sequence enter the generated glue in exactly the state the drivers start from: scope == wscope_built / rscope_built over the constants of the Constraint, cursor directly behind the preamble, '
             'every preamble bit zero (writer) / the extension bit as found in the input (reader); lemma_built_is_wroot / lemma_built_is_rroot identify these with the drivers\' root scopes',
-            'ASSUMED: the generated write_seq/read_seq call the presence protocol exactly once per component, in declaration order, and write/read the component payload in between (text emission of walker.rs; modelled by append_payload / consume_payload: arbitrary appends / cursor advances)',
-            'the constants STD_OPTIONAL_FIELDS / FIELD_COUNT / EXTENDED_AFTER_FIELD of the generated code describe the shape (shape_ok, wscope_root / rscope_root)',
+            'VERIFIED for the zoo of unit glue (three schemas, real macro output of the current tree, rules G1-G11), ASSUMED for every other schema: the generated write_seq/read_seq call the presence protocol exactly once per component '
+            '(every Writer/Reader method and write_value/read_value carry the abstract protocol step wstep_abs / rstep_abs; write_seq must leave an exhausted scope, read_seq must satisfy rglue_post) and the constants STD_OPTIONAL_FIELDS / FIELD_COUNT / EXTENDED_AFTER_FIELD are consistent with the components visited',
+            'NOT decided by contracts: that the constants are those of the SCHEMA (position of the extension marker, which components are OPTIONAL): the generator is text emission; bounded stand-ins seq / zoo compare with hand-composed reference encodings',
             'contracts of BitBuffer / PackedWrite / PackedRead are assumed in unit scope and proved in units bits / per (same sidecar text)',
         ],
         'trusted_base': COMMON_TRUSTED + PER_TRUSTED + ['R17: `&mut impl Trait` argument named as generic parameter', 'R10a: Option::as_mut().filter().map().transpose() chain rewritten to if-let/match (closure captured a &mut)',
@@ -113,6 +115,7 @@ PROPS = {
     'C05': {
         'verus': [U_SCOPE, U_UPER, U_PER_DEP, U_BITS_DEP],
         'glue': GLUE_ZOO,
+        'glue_filter': r'::(read_seq|write_seq|read|write)$|verif_g13_consts_',
         'search_groups': ['seq'],
         'bounded_search': [('seq', 'all SEQUENCE shapes with n <= 4 components x kinds {mandatory, OPTIONAL, DEFAULT} x marker position x all presence patterns through the real Writer/Reader API against an X.691 reference encoding; cross-version pairs with up to 5 components')],
         'assumptions': [
@@ -142,7 +145,10 @@ PROPS = {
             'unit uper, COMPOSITIONAL: WritableType::x_enc / ReadableType::x_dec are trait-level spec functions with the contracts `scope None ==> appended bits == x_enc(v)` and `scope None ==> result == x_dec(input)`; the real descriptor impls '
             '(writer: Boolean, NullT, Integer, OctetString, Enumerated, Option<T>, DefaultValue<T, C>, SequenceOf<T, C>; reader: Boolean, NullT, Integer with bounds, Enumerated, Option<T>) are verified against them, and the lemmas lemma_rt_desc_boolean / _integer / _enumerated / _option '
             'prove dec(enc(v) ++ tail) == (v, len) for these codecs relative to an arbitrary prefix and tail (Option for ANY element codec that round trips), given the laws of the generated value types (n_from(n_i64(v)) == v, e_from(e_index(v)) == Some(v))',
-            'NOT PROVED, bounded stand-in only: the per-schema code emitted by walker.rs (its contract is ASSUMED at sequence::Constraint / choice::Constraint), the remaining reader-side compositional decoders (strings, SEQUENCE OF, DEFAULT) and the four restricted-string writers. '
+            'unit glue (Verus on the REAL macro output for contracts/zoo/*.asn, bounded in programs, unbounded in values): every generated function satisfies the trait contracts assumed in unit uper (protocol discipline of read_seq / write_seq, CHOICE dispatch laws, write_content emits c_enc); '
+            'per generated ENUMERATED the law e_from(e_index(v)) == Some(v) and the spec-level round trip x_dec(prefix ++ x_enc(v) ++ tail) == (v, len) (G9); per bounded INTEGER constraint the round trip on [MIN, MAX] with the Number conversions verified as Rust casts (G10); '
+            'DefaultValue<T, C> and Complex<V, C> / the blanket impl carry x_dec (lemma_rt_desc_default; t_enc / t_dec spec twins G11) so that nesting composes',
+            'NOT PROVED, bounded stand-in only: payload equality of generated SEQUENCE/SET types (the glue contract is about the protocol, not about which value goes where), the reader-side decoders of Vec-typed descriptors (strings, SEQUENCE OF: Verus has no extensional equality on Vec), the six restricted-string methods. '
             'Their composition is exercised on the zoo and the shape enumeration, never counted as discharged',
             'value round trip of fragmented OCTET/BIT STRING readers: safety + consumption proved, value equality via regression probes and search only',
             'known findings KF-C01-seqof-16k, KF-C01-string-16k, KF-C01-open-type-16k: sizes >= 16K elements (which the property explicitly includes) do not round trip for SEQUENCE OF, restricted strings and large extension additions',
@@ -172,8 +178,9 @@ PROPS = {
             'the real descriptor impls Boolean, NullT, Integer, OctetString, Enumerated, Option<T>, DefaultValue<T, C>, SequenceOf<T, C> (length part ++ concatenation of the element encodings, loop invariant over the real for loop) are verified against it, '
             'so the encoding of every type built from these descriptors by arbitrary nesting is proved bit-exact (below the 16K fragmentation threshold of the known findings). Sequence<C>, Choice<C>, Utf8String have x_ok == false (not described compositionally)',
             'write_choice (X.691 23): index, then a root alternative in place or an extension alternative as open type (general length + the alternative padded with 0 to whole octets, lemma_fresh_is_bits), '
-            'given the ASSUMED contract of the generated write_content (it emits c_enc of the selected alternative)',
-            'NOT PROVED, bounded stand-in only: the character strings at the API level and the constants emitted by walker.rs (MIN/MAX/EXTENSIBLE/STD_OPTIONAL_FIELDS/...)',
+            'given the contract of the generated write_content (it emits c_enc of the selected alternative): VERIFIED for the zoo of unit glue (c_enc is the spec twin of the generated match, rule G4), assumed otherwise; Choice<C>::x_enc / Complex<V, C>::x_enc make CHOICE and referenced types compose',
+            'unit glue: the generated constants are checked for CONSISTENCY (1 <= STD_VARIANT_COUNT <= VARIANT_COUNT, indices < VARIANT_COUNT, MIN <= MAX, MIN_T/MAX_T == MIN/MAX, FIELD_COUNT / STD_OPTIONAL_FIELDS / EXTENDED_AFTER_FIELD against the components visited) on the zoo',
+            'NOT PROVED, bounded stand-in only: the character strings at the API level and that the constants emitted by walker.rs are those of the SCHEMA (bounded zoo against hand-composed reference encodings)',
         ],
         'trusted_base': COMMON_TRUSTED + PER_TRUSTED + KANI_TRUSTED,
         'not_under_contract': UPER_NOT + ['constraint constants emitted by walker.rs'],
@@ -286,6 +293,8 @@ PROPS = {
         'explanation': 'varint (byte-exact LEB128, <= 10 bytes), zig-zag sint32/sint64, uint32, bool, tag (field < 2^29, four formats), sfixed32: round trip for ALL values (Kani, complete).',
     },
     'C16': {
+        'glue': GLUE_ZOO,
+        'glue_filter': r'verif_g12_order_|verif_g13_order_',
         'kani_quick': [('tag_order', 120, True), ('rusttype_universal_tags', 120, True)],
         'search_groups': ['setorder'],
         'bounded_search': [('setorder', 'BOUNDED stand-in for sort_fields_canonically / assign_implicit_tags / TagResolver (Kani exhausts memory on Vec<Field>; String/iterator code): 6 SET definitions compiled by the real proc macro of the '
